@@ -132,7 +132,7 @@ CHECKS["C10"] = {
     "rule": ("rapid-generated handshake scenarios in virtual time: drop/dup/delay scripts (<=12 decisions per direction, delays around the handshake timeout) applied from the first packet, "
              "up to 5 stale packets of every type (SYN with the same/other N incl. 255 and 0, SYNACK, DATA, ACK, NACK, FIN) queued in either direction before anyone starts, all client N, drawn start offsets, "
              "both sides in retry loops (as Server.Accept / Client.Dial use the package) with drawn retry delay, keepalive on (drawn ping/pong, RTT below pong and below the handshake timeout). "
-             "Safety oracle: a server attempt that enters the data phase has n (hook) equal to a SYN value that was handed to it, n != 255 and s = n+1; when data flows between the client and a server attempt their n agree. "
+             "Safety oracle: a server attempt that enters the data phase has n (hook) equal to a SYN value that was handed to it, n != 255 and s = n+1; when data flows between the client and a server attempt their n agree; every SYNACK the client sends follows a SYN reply that carried the client's own N (trace). "
              "Progress oracle: within 10 x (4*handshake + 4*resend + ping+pong + retry + RTT + start offset) after the faults ceased some pair of live attempts has exchanged a message in both directions. "
              "Non-trivial: a SYN/SYNACK was faulted or a stale packet preceded the first SYN; distinct by case."),
     "assumptions": ["convergence is checked with keepalive enabled (see DESIGN.md 5/C10)", "transport model vnet.Link"],
@@ -197,7 +197,7 @@ CHECKS["C04"] = {
     "rule": ("(1) exhaustive: all 81 (iMin,iMax,rMin,rMax) in {0,1,2}^4 x {XX,KK}, clean, and for every valid range all 4^3 (XX) / 4^2 (KK) substitutions of the acts' version bytes by 0..3; "
              "(2) exhaustive: every single-bit flip of every byte of every act for XX v0, v1, v2, XX negotiated 0..2 and KK; (3) rapid: payload sizes {0,1,497..501,65535..65537, up to 3 MiB}, nil payload, random multi-byte rewrites, random version substitutions. "
              "Oracle: if both sides return nil they agree on version (hook), hold complementary traffic keys (hook and a probe record each way), each other's true static key, the same SID and next pattern, onRemoteStatic fired on both or neither; "
-             "an initiator that completed holds exactly the responder's payload, also when its ConnData already held auth data from an earlier handshake (drawn in a third of the rapid cases). Non-trivial: the relay changed a byte, or the negotiated version differs from a side's maximum; distinct by case."),
+             "every party that completed holds a version inside its own configured [min,max]; an initiator that completed holds exactly the responder's payload, also when its ConnData already held auth data from an earlier handshake (drawn in a third of the rapid cases). Non-trivial: the relay changed a byte, or the negotiated version differs from a side's maximum; distinct by case."),
     "exhaustive_scope": "81 ranges x 2 patterns x all version-byte substitutions; all single-bit flips of 5 handshakes",
     "assumptions": ["scrypt cost lowered by the verif hook"],
     "units": [
@@ -297,9 +297,13 @@ CHECKS["C11"] = {
              "intruder (a second client that only knows the passphrase), server max handshake version 0/1/2. Invariants: Accept / Dial never return while the connection previously handed out by the same object has an open Done(); "
              "after a close a working secured connection (echo succeeds) is re-established within 12 dial attempts; after a version-2 pairing both ConnData agree on a new SID different from the passphrase SID, hold each other's true key, "
              "the next connection uses the KK pattern on the key-derived stream ids; a version 0/1 pairing stores no key; the passphrase-only client never completes a handshake nor obtains the auth payload after the switch; "
-             "the peer of a closed side notices within 30s. Non-trivial: the history contains at least one reconnect; distinct by history."),
+             "the peer of a closed side notices within 30s. In half of the sessions the context given to Dial is cancelled as soon as Dial returns (dialer convention). "
+             "Second unit (TestC11RawFresh): the connections handed out are used directly as net.Conns, 2-4 rounds per session, both sides write 0..300 bytes, the peer reads only part of them, one side closes, next round on the next connection; "
+             "oracle: whatever is read on a connection is a prefix of what the peer wrote on that same connection (nothing of an earlier connection), plus the same exclusivity invariant. "
+             "Non-trivial: the history contains at least one reconnect (raw unit: a reconnect after unread bytes were left behind); distinct by history."),
     "assumptions": ["relative to the in-memory relay model", "real-time bounds of 30-150 s per wait, >= 10x the mailbox's own constants (2s retry, 2s handshake, 5/7/3s keepalive)"],
     "units": [
         {"pkg": "mboxprop", "run": "TestC11Session", "checks": (1, 6), "shards": (1, 4), "timeout": (1500, 7200), "shrink": (1, 1)},
+        {"pkg": "mboxprop", "run": "TestC11RawFresh", "checks": (3, 20), "shards": (1, 4), "timeout": (1500, 7200), "shrink": (1, 1)},
     ],
 }
